@@ -33,6 +33,9 @@ def run(ctx, report):
     report.section("written documents", markup_writer_fold.run, ctx, report, {"langs": ("R-DOC-LANGS", "1")})
     from . import dfxp_reader_fold
     report.section("generated DFXP documents", dfxp_reader_fold.run, ctx, report, {"langs": ("R-DOC-LANGS", "3")})
+    from . import sami_reader_fold
+    report.section("generated SAMI documents", sami_reader_fold.run, ctx, report, {
+        "langs": ("R-DOC-LANGS", "1"), "cues": ("R-DOC-CUES", "1"), "roundtrip": ("R-ROUNDTRIP", "1")})
     report.not_decided += ["SAMI: placement of secondary-language paragraphs into <sync> blocks and the non-decreasing "
                            "order of blocks for arbitrary interleavings (value dependent)",
                            "SAMI writer: a paragraph is labelled with the caption's class when the stylesheet gives that "
